@@ -912,9 +912,10 @@ func runC18(c *Ctx) {
 					// malformed snapshots: must be an error, never a panic
 					for m := 0; m < 4; m++ {
 						bad := append([]byte{}, data...)
+						kind := "bytes"
 						switch r.Intn(4) {
 						case 3:
-							bad = snapshotMissingField(data, r)
+							bad, kind = snapshotMissingField(data, r)
 						case 0:
 							if len(bad) > 0 {
 								bad[r.Intn(len(bad))] ^= 1 << uint(r.Intn(8))
@@ -925,8 +926,20 @@ func runC18(c *Ctx) {
 							bad = r.Bytes(r.Intn(40))
 						}
 						c.Eval()
-						out := execCase("SNAP", "(case (bytes "+hx(bad)+"))")
-						c.Count("snap-malformed:" + strings.SplitN(out, " ", 2)[0])
+						sxBad := "(case (bytes " + hx(bad) + "))"
+						if kind == "index-outside-table" || kind == "symbols-cut" || kind == "missing-field" {
+							// whether these bytes are still a snapshot is decided by the model's
+							// reading of the format (every index declared, every mandatory field present)
+							sxBad = "(case (bytes " + hx(bad) + ") (verdictonly))"
+						}
+						out := execCase("SNAP", sxBad)
+						if strings.HasSuffix(sxBad, "(verdictonly))") && !strings.HasPrefix(out, "panic") {
+							c.Case("SNAP", c.NewID("snapbad"), sxBad, out)
+						}
+						if (kind == "index-outside-table" || kind == "missing-field") && out == "ok" {
+							c.Violate("C18/malformed-accepted:"+kind, "LoadPolicies accepted bytes that are not a well-formed snapshot ("+kind+")", map[string]interface{}{"verb": "SNAP", "case": sxBad, "go": out})
+						}
+						c.Count("snap-malformed:" + kind + ":" + strings.SplitN(out, " ", 2)[0])
 						if strings.HasPrefix(out, "panic") {
 							c.Violate("C18/load-panic", "LoadPolicies panicked on malformed bytes: "+out, map[string]interface{}{"verb": "SNAP", "case": "(case (bytes " + hx(bad) + "))", "go": out})
 						}
@@ -1141,20 +1154,46 @@ func u64p(v uint64) *uint64 { return &v }
 // snapshotMissingField: a well-formed snapshot from which one mandatory field has been
 // removed (a policy's kind, a fact's predicate, a predicate's name, a rule's / query's head):
 // syntactically valid protobuf that only the required-field check stands against.
-func snapshotMissingField(data []byte, r *Rng) []byte {
+func snapshotMissingField(data []byte, r *Rng) (out []byte, label string) {
 	var m pb.AuthorizerPolicies
 	if err := (proto.UnmarshalOptions{AllowPartial: true}).Unmarshal(data, &m); err != nil {
-		return []byte{0x10, 0x03, 0x32, 0x00}
+		return []byte{0x10, 0x03, 0x32, 0x00}, "undecodable"
 	}
 	three := uint32(3)
-	switch r.Intn(10) {
+	label = "missing-field"
+	switch r.Intn(13) {
+	case 10, 11, 12:
+		label = "index-outside-table"
+		// a string index far outside any table: 2^63 and beyond (signed/unsigned boundary),
+		// 2^64-1, the first index after the table — as a predicate name and as a string term,
+		// in a fact, a rule head, a check or a policy query
+		huge := Pick(r, []uint64{1 << 63, 1<<63 + 1024, 1<<64 - 1, 1<<63 - 1, uint64(1024 + len(m.Symbols)), 1 << 32})
+		pred := &pb.PredicateV2{Name: &huge}
+		if r.Chance(1, 2) {
+			ok := uint64(0)
+			pred = &pb.PredicateV2{Name: &ok, Terms: []*pb.TermV2{{Content: &pb.TermV2_String_{String_: huge}}}}
+		}
+		switch r.Intn(4) {
+		case 0:
+			m.Facts = append(m.Facts, &pb.FactV2{Predicate: pred})
+		case 1:
+			m.Rules = append(m.Rules, &pb.RuleV2{Head: pred})
+		case 2:
+			m.Checks = append(m.Checks, &pb.CheckV2{Queries: []*pb.RuleV2{{Head: pred, Body: []*pb.PredicateV2{pred}}}})
+		default:
+			k := pb.Policy_Allow
+			m.Policies = append(m.Policies, &pb.Policy{Kind: &k, Queries: []*pb.RuleV2{{Head: pred, Body: []*pb.PredicateV2{pred}}}})
+		}
 	case 7:
+		label = "symbols-cut"
 		m.Symbols = nil // every index from 1024 up now points nowhere
 	case 8:
+		label = "symbols-cut"
 		if len(m.Symbols) > 0 {
 			m.Symbols = m.Symbols[:r.Intn(len(m.Symbols))]
 		}
 	case 9:
+		label = "symbols-cut"
 		if len(m.Symbols) > 0 {
 			m.Symbols = m.Symbols[len(m.Symbols)-1:]
 		}
@@ -1179,7 +1218,7 @@ func snapshotMissingField(data []byte, r *Rng) []byte {
 		m.Policies = append(m.Policies, &pb.Policy{Kind: &k, Queries: []*pb.RuleV2{{}}})
 	}
 	m.Version = &three
-	return mustMarshal(&m)
+	return mustMarshal(&m), label
 }
 
 // liveLoad: LoadPolicies on an authorizer that has already evaluated something. The content
